@@ -11,3 +11,4 @@ import WmModel.Props.C05
 #print axioms Wm.GcReg.blocking_deadlock_witness
 #print axioms Wm.GcReg.blocking_without_pending_writer_returns
 #print axioms Wm.GcReg.writer_unique
+#print axioms Wm.GcReg.blocking_order
